@@ -493,7 +493,7 @@ func (db *DB) doProcessIterations(iterations []*iteration) {
 					itVals[itI] = val
 				}
 			}
-			itMore, err := it.onValue(dims, itVals)
+			itMore, err := it.safeOnValue(dims, itVals)
 			if err != nil {
 				// The error (e.g. an expired deadline) is this iteration's own: it
 				// gets it as its result and stops receiving rows, the others that
@@ -531,6 +531,19 @@ func (db *DB) doProcessIterations(iterations []*iteration) {
 			it.errCh <- err
 		}
 	}
+}
+
+// safeOnValue hands a row to the iteration. A panic in the query's own row
+// handling (e.g. a dimension function applied to a value of the wrong type)
+// fails that query only, not the process that serves everyone's scans.
+func (it *iteration) safeOnValue(dims bytemap.ByteMap, vals []encoding.Sequence) (more bool, err error) {
+	defer func() {
+		if p := recover(); p != nil {
+			more = false
+			err = fmt.Errorf("panic while handling row: %v", p)
+		}
+	}()
+	return it.onValue(dims, vals)
 }
 
 func (it *iteration) indexOfOutField(field core.Field) int {
